@@ -465,6 +465,98 @@ def stream_doc_chains(ctx, res):
         res["nontrivial"].add(("doc-chain", tuple(chain), tuple((a, b) for (a, b, _) in caps)))
     dist["document_level_chains_with_dfxp_hops_compared"] = ncmp
 
+# ---- last round: zero-margin layouts through WebVTT; WebVTT time shift on the writer's own output ----------------------
+def stream_last_round(ctx, res):
+    """(a) caption sets whose every node carries a Layout with an all-zero Padding - read from SAMI documents whose
+    stylesheet sets every margin to 0%, or built through the API (Layout(padding=Padding()), Padding of four 0% sizes) -
+    with a line break or an inline span in the cue, chained through WebVTT (alone and followed by SRT), two passes: cue
+    count, times (ok_chain) and whitespace-normalised text must be preserved (no cue per text node).
+    (b) WebVTTReader(time_shift_milliseconds != 0) on WebVTTWriter output (no blank line at the end): EVERY cue, the
+    last included, with and without an hours field, must be shifted by exactly the shift."""
+    from pycaption.geometry import Layout, Padding, Size, UnitEnum
+    rng = ctx.rng
+    dist = res["distribution"]
+    z = Size(0, UnitEnum.PERCENT)
+    lays = [Layout(padding=Padding()), Layout(padding=Padding(z, z, z, z))]
+    words = ["one", "two", "x y", "l'a", "R-D", "\u00e9"]
+    n_a = n_b = 0
+    for _ in range(ctx.n(30, 600)):
+        t = rng.choice([0, 1000, 59999000, 3598000000, 3600000000, rng.randrange(0, 80000) * 10**6])
+        cues, specs = [], []
+        for _ in range(rng.choice([1, 2, 3])):
+            a = t + rng.choice([1000, 2000, 123000])
+            b = a + rng.choice([1000, 2500, 4000000])
+            t = b
+            cues.append((a, b))
+            specs.append(rng.choice(["br", "span", "both", "plain"]))
+        if all(sp == "plain" for sp in specs):
+            specs[0] = "br"
+        texts = [[rng.choice(words) for _ in range(3)] for _ in cues]
+        via_sami = rng.random() < 0.5
+        if via_sami:
+            body = []
+            for (a, b), sp, w in zip(cues, specs, texts):
+                inner = {"br": "%s<br/>%s" % (w[0], w[1]), "span": '%s <span style="font-style:italic">%s</span> %s' % tuple(w),
+                         "both": '%s<br/><span style="font-style:italic">%s</span> %s' % tuple(w), "plain": w[0]}[sp]
+                body.append("<SYNC start=%d><P class=ENCC>%s</P></SYNC>\n<SYNC start=%d><P class=ENCC>&nbsp;</P></SYNC>"
+                            % (a // 1000, inner, b // 1000))
+            doc = ('<SAMI><HEAD><TITLE>t</TITLE><STYLE TYPE="text/css"><!--\nP { margin-left: 0%; margin-right: 0%; '
+                   'margin-top: 0%; margin-bottom: 0%; }\n.ENCC {Name: English; lang: en-US; SAMI_Type: CC;}\n--></STYLE>'
+                   '</HEAD><BODY>\n' + "\n".join(body) + "\n</BODY></SAMI>")
+            made = impl.call(lambda: SAMIReader().read(doc))
+        else:
+            lay = rng.choice(lays)
+
+            def mk():
+                caps = []
+                for (a, b), sp, w in zip(cues, specs, texts):
+                    T = lambda x: CaptionNode.create_text(x, layout_info=lay)
+                    B = lambda: CaptionNode.create_break(layout_info=lay)
+                    S = lambda on: CaptionNode.create_style(on, {"italics": True}, layout_info=lay)
+                    nodes = {"br": [T(w[0]), B(), T(w[1])], "span": [T(w[0] + " "), S(True), T(w[1]), S(False), T(" " + w[2])],
+                             "both": [T(w[0]), B(), S(True), T(w[1]), S(False), T(" " + w[2])], "plain": [T(w[0])]}[sp]
+                    caps.append(Caption(a, b, nodes, layout_info=lay))
+                return CaptionSet({"en-US": CaptionList(caps, layout_info=lay)}, layout_info=lay)
+            made = impl.call(mk)
+        res["evaluations"] += 1
+        if not isinstance(made, Ok):
+            res["disagreements"].append({"what": "last-round set could not be built", "error": repr(made)})
+            continue
+        o0 = impl.call(lambda: observe(made.v))
+        want_t, want_x = o0.v["en-US"] if isinstance(o0, Ok) and "en-US" in o0.v else ([], [])
+        for chain in ([1], [1, 0]):
+            n_a += 1
+            t1, c1 = run_chain(chain, made.v)
+            t2, _ = run_chain(chain, c1) if c1 is not None else ([], None)
+            f1, f2 = final_times(t1, 0, len(chain)), final_times(t2, 0, len(chain))
+            ok = oracle1(802, [chain, [list(c) for c in want_t], f1, f2]) == 1
+            tx = [o.v["en-US"][1] if isinstance(o, Ok) and "en-US" in o.v else None for o in t1 + t2]
+            if not ok or any(x != want_x for x in tx):
+                res["violations"].append({
+                    "kind": "zero-padding-layout-through-vtt", "chain": [FMT[f] for f in chain], "replay": "none",
+                    "what": "set with all-zero Padding layouts (%s; cues %s, shapes %s) through %s: times %s / %s, texts %s; "
+                            "expected %s cues with texts %s" % ("read from SAMI" if via_sami else "built through the API",
+                                                                want_t, specs, "->".join(FMT[f] for f in chain), show(f1),
+                                                                show(f2), tx, len(want_t), want_x),
+                    "input": [want_t, specs]})
+        # (b)
+        sh = rng.choice([1, -1, 999, -999, 1500, 3600000, -3600000, 12345])
+        doc_v = impl.call(lambda: WebVTTWriter().write(made.v))
+        if isinstance(doc_v, Ok):
+            n_b += 1
+            got = impl.call(lambda: [[as_int(c.start), as_int(c.end)]
+                                     for c in WebVTTReader(time_shift_milliseconds=sh, ignore_timing_errors=True)
+                                     .read(doc_v.v, lang="en-US").get_captions("en-US")])
+            exp = [[a // 1000 * 1000 + sh * 1000, b // 1000 * 1000 + sh * 1000] for (a, b) in want_t]
+            if not (isinstance(got, Ok) and got.v == exp):
+                res["violations"].append({
+                    "kind": "vtt-time-shift-on-writer-output", "chain": ["vtt"], "replay": "none",
+                    "what": "WebVTTReader(time_shift_milliseconds=%d) on WebVTTWriter output (ends %r) returned %s, every cue "
+                            "shifted would be %s" % (sh, doc_v.v[-12:], got.v if isinstance(got, Ok) else repr(got), exp),
+                    "input": [want_t, sh]})
+    dist["zero_padding_layout_chains_through_webvtt"] = n_a
+    dist["webvtt_writer_documents_read_with_a_time_shift"] = n_b
+
 
 def run(ctx):
     rng = ctx.rng
@@ -603,6 +695,7 @@ def run(ctx):
     dist["non_integer_times_observed_and_floored"] = NONINT[0]
     stream_shapes(ctx, res)
     stream_doc_chains(ctx, res)
+    stream_last_round(ctx, res)
     # the string-level MicroDVD writer model (request 803) against the real writer, on the generated single-language sets
     # whose captions are lines separated by single breaks (a difference is a correspondence disagreement)
     mw, skipped = [], 0
@@ -1047,6 +1140,8 @@ def show(o):
 
 
 def replay(ctx, rec):
+    if rec.get("replay") == "none":          # last-round stream: re-run the check (the stream regenerates the case)
+        return True, rec.get("what")
     chain = rec["chain_codes"]
     langs = [([tuple(c) for c in cu], tx) for (cu, tx) in rec["input"]]
     if rec.get("replay") == "shape":
